@@ -411,3 +411,96 @@ Proof.
     destruct (mpo_order eqb E a b r C H) as (Sa & Sb). auto.
   - intros (s & N & Sa & Sb). exact (common_supersequence_compatible eqb E a b s N Sa Sb).
 Qed.
+
+(* ---------------------------------------------------------------------------------------- *)
+(** * Arbitrary lists (duplicates allowed) and scrambled orders *)
+
+Lemma subseq_trans {A} (a b c : list A) : subseq a b -> subseq b c -> subseq a c.
+Proof.
+  intros H1 H2. revert a H1. induction H2 as [|b c y H2 IH|b c x H2 IH]; intros a H1.
+  - exact H1.
+  - apply sub_skip. apply IH, H1.
+  - inversion H1 as [|a' l' y' Ha|a' l' x' Ha]; subst.
+    + apply sub_skip. apply IH, Ha.
+    + apply sub_take. apply IH, Ha.
+Qed.
+
+Lemma subseq_filter {A} (f : A -> bool) (l : list A) : subseq (filter f l) l.
+Proof.
+  induction l as [|x l IH]; cbn [filter]; [apply sub_nil|].
+  destruct (f x); [apply sub_take|apply sub_skip]; exact IH.
+Qed.
+
+Lemma subseq_app_l {A} (a l : list A) : subseq a (l ++ a).
+Proof. induction l as [|x l IH]; cbn [app]; [apply subseq_refl|apply sub_skip, IH]. Qed.
+
+(* membership, whatever the lists are *)
+Theorem mpo_in_iff {A} (eqb : A -> A -> bool) (E : eqb_ok eqb) (a b r : list A) :
+  mpo_res eqb a b = Ok r -> forall x, In x r <-> In x a \/ In x b.
+Proof.
+  intros H x. pose proof (mpo_perm eqb E a b r H) as P. split.
+  - intros Hx. apply (Permutation_in _ P) in Hx. apply in_app_or in Hx. destruct Hx as [Hx|Hx]; [left; exact Hx|].
+    right. apply filter_In in Hx. exact (proj1 Hx).
+  - intros Hx. apply (Permutation_in _ (Permutation_sym P)). apply in_or_app.
+    destruct (memb eqb x a) eqn:M.
+    + left. apply (memb_In eqb E). exact M.
+    + destruct Hx as [Hx|Hx]; [left; exact Hx|]. right. apply filter_In. split; [exact Hx|].
+      unfold minus. rewrite M. reflexivity.
+Qed.
+
+(* the elements only the second list has keep their relative order, whatever the lists are
+   (compatible or scrambled, with or without duplicates) *)
+Theorem mpo_order_b_only {A} (eqb : A -> A -> bool) (E : eqb_ok eqb) (a b r : list A) :
+  mpo_res eqb a b = Ok r -> subseq (minus eqb b a) r.
+Proof.
+  intros H. destruct (mpo_res_shape eqb E a b r H) as (ra & rb & af & bf & m & Ha & Hb & HM & _ & ->).
+  rewrite Hb. unfold minus at 1. rewrite filter_app. apply subseq_app.
+  - apply (subseq_trans _ rb); [apply subseq_filter|exact (Merged_subseq_b _ _ _ _ _ HM)].
+  - apply subseq_app_l.
+Qed.
+
+(* everything the function guarantees for ARBITRARY lists, in one statement: it terminates within
+   the fuel, the result is a permutation of a ++ (b minus a) — so an element of [a] occurs as often
+   as in [a], an element only [b] has as often as in [b] —, the first list and the b-only elements
+   are subsequences of it *)
+Theorem mpo_any_lists {A} (eqb : A -> A -> bool) (E : eqb_ok eqb) (a b : list A) :
+  exists r, mpo_res eqb a b = Ok r /\
+    Permutation r (a ++ minus eqb b a) /\
+    (forall x, In x r <-> In x a \/ In x b) /\
+    subseq a r /\ subseq (minus eqb b a) r.
+Proof.
+  destruct (mpo_fuel_suffices eqb E a b) as (r & H). exists r.
+  split; [exact H|]. split; [exact (mpo_perm eqb E a b r H)|]. split; [exact (mpo_in_iff eqb E a b r H)|].
+  split; [exact (mpo_order_a eqb E a b r H)|exact (mpo_order_b_only eqb E a b r H)].
+Qed.
+
+(* duplicate-free lists: the second list's order is kept exactly when the orders are compatible;
+   a scrambled pair still yields every element exactly once (mpo_exact_once has no compatibility
+   hypothesis), with the first list's order *)
+Theorem mpo_b_order_iff_compatible {A} (eqb : A -> A -> bool) (E : eqb_ok eqb) (a b r : list A) :
+  NoDup a -> NoDup b -> mpo_res eqb a b = Ok r -> (subseq b r <-> compatible eqb a b).
+Proof.
+  intros Na Nb H. split.
+  - intros Sb. destruct (mpo_exact_once eqb E a b r Na Nb H) as (_ & N & _).
+    exact (common_supersequence_compatible eqb E a b r N (mpo_order_a eqb E a b r H) Sb).
+  - intros C. exact (proj2 (mpo_order eqb E a b r C H)).
+Qed.
+
+Theorem mpo_scrambled {A} (eqb : A -> A -> bool) (E : eqb_ok eqb) (a b r : list A) :
+  NoDup a -> NoDup b -> ~ compatible eqb a b -> mpo_res eqb a b = Ok r ->
+  NoDup r /\ (forall x, In x r <-> In x a \/ In x b) /\ subseq a r /\ subseq (minus eqb b a) r /\ ~ subseq b r.
+Proof.
+  intros Na Nb NC H. destruct (mpo_exact_once eqb E a b r Na Nb H) as (_ & N & Hin).
+  split; [exact N|]. split; [exact Hin|]. split; [exact (mpo_order_a eqb E a b r H)|].
+  split; [exact (mpo_order_b_only eqb E a b r H)|].
+  intros Sb. apply NC. apply (mpo_b_order_iff_compatible eqb E a b r Na Nb H). exact Sb.
+Qed.
+
+(* where a scrambled pair gets stuck: the exact shape of the result.  The loop consumed [ra] of [a]
+   and [rb] of [b] into an interleaving [m]; at [af], [bf] no loop can take anything (the heads
+   differ and each occurs in the other list); then the rest of [a] and the b-only rest of [b] follow *)
+Theorem mpo_shape {A} (eqb : A -> A -> bool) (E : eqb_ok eqb) (a b r : list A) :
+  mpo_res eqb a b = Ok r ->
+  exists ra rb af bf m, a = ra ++ af /\ b = rb ++ bf /\ Merged a b ra rb m /\ stuck eqb a b af bf /\
+                        r = m ++ af ++ minus eqb bf a.
+Proof. exact (mpo_res_shape eqb E a b r). Qed.
